@@ -14,15 +14,18 @@ From FH Require Import Model.Base Gen.GenC10 Model.ConnOpt Model.Serve Spec.Serv
 Open Scope nat_scope.
 
 (* Everything written before the hijack handler starts has been flushed, and unless the handler of the
-   hijacking request suppressed it, its response is among that. *)
+   hijacking request suppressed it, its response is among that — for a hijack on ANY request of a keep-alive
+   connection and whatever the handlers of the earlier requests did: the model carries ctx.hijackNoResponse from
+   request to request (lst.l_noresp) and the loop's reset after each request is what makes the hijacking request's
+   own operations (req_hstate ... false: starting from a cleared flag) the only ones that count. *)
 Theorem C17_response_before_handler : forall F cfg E, framer_ok F -> forall en ad rd src hb hcs,
   In (HijackEv src hb hcs) (serve_conn F cfg E en ad rd) ->
   exists pre post num q,
     serve_conn F cfg E en ad rd = pre ++ HijackEv src hb hcs :: post /\
     unflushed_from false pre = false /\
-    In (Dispatch num q) pre /\ h_hijack (req_hstate E num q true StatusOK) = true /\
-    (h_noresp (req_hstate E num q true StatusOK) = false ->
-       In (Resp (resp_of num q true (req_hstate E num q true StatusOK) false)) pre).
+    In (Dispatch num q) pre /\ h_hijack (req_hstate E num q true StatusOK false) = true /\
+    (h_noresp (req_hstate E num q true StatusOK false) = false ->
+       In (Resp (resp_of num q true (req_hstate E num q true StatusOK false) false)) pre).
 Proof. exact response_before_handler. Qed.
 Print Assumptions C17_response_before_handler.
 
@@ -33,7 +36,7 @@ Theorem C17_bytes_intact : forall F cfg E, framer_ok F -> forall en ad rd src hb
   In (HijackEv src hb hcs) (serve_conn F cfg E en ad rd) ->
   exists pre post num q off k,
     serve_conn F cfg E en ad rd = pre ++ HijackEv src hb hcs :: post /\
-    In (Dispatch num q) pre /\ h_hijack (req_hstate E num q true StatusOK) = true /\
+    In (Dispatch num q) pre /\ h_hijack (req_hstate E num q true StatusOK false) = true /\
     framed F (skipn off (remaining rd)) q k /\
     hb ++ concat hcs = skipn (off + k) (remaining rd) /\
     forall n, hijack_in hb hcs n = firstn n (skipn (off + k) (remaining rd)).
